@@ -382,6 +382,9 @@ impl Prioritize {
         let _res = self.flow.assign_capacity(inc);
         debug_assert!(_res.is_ok());
 
+        // The stream the caller is operating on, if any.
+        let caller = store.own_key();
+
         // Assign newly acquired capacity to streams pending capacity.
         while self.flow.available() > 0 {
             let stream = match self.pending_capacity.pop(store) {
@@ -391,9 +394,20 @@ impl Prioritize {
 
             // Streams pending capacity may have been reset before capacity
             // became available. In that case, the stream won't want any
-            // capacity, and so we shouldn't "transition" on it, but just evict
-            // it and continue the loop.
+            // capacity, so just evict it and continue the loop.
             if !(stream.state.is_send_streaming() || stream.buffered_send_data > 0) {
+                // Being linked in `pending_capacity` may have been the last
+                // thing keeping a closed, unreferenced stream in the store.
+                // Nothing will look at such a stream again, so it has to be
+                // released now.
+                //
+                // The exception is the stream the caller itself is in the
+                // middle of operating on: the caller still uses it and runs
+                // its own "transition".
+                if caller != Some(stream.key()) {
+                    counts.transition(stream, |_, _| {});
+                }
+
                 continue;
             }
 
